@@ -74,9 +74,31 @@ class Budget(Exception):
     pass
 
 
+FOLLOW_PRIVATE_DEFAULT = True
+# private functions of the pinned tree (tools/list_private.py prints them): rules name these
+# explicitly where they want to look inside; everything private that is NOT listed here is new and
+# is followed automatically when it is small
+KNOWN_PRIVATE = set()
+
+
+def load_known_private():
+    import os
+    p = os.path.join(os.path.dirname(os.path.abspath(__file__)), 'reference', 'known_private.txt')
+    if os.path.exists(p):
+        with open(p) as fh:
+            for line in fh:
+                line = line.strip()
+                if line and not line.startswith('#'):
+                    KNOWN_PRIVATE.add(line)
+
+
+load_known_private()
+
+
 class Symx:
     def __init__(self, facts, inline=(), pure=(), models=None, spec=None, max_paths=20000, max_depth=5,
-                 inline_all_local=False, no_inline=(), loop_symbolic=False, snapshot_refs=False):
+                 inline_all_local=False, no_inline=(), loop_symbolic=False, snapshot_refs=False,
+                 follow_private=None):
         self.loop_symbolic = loop_symbolic
         self._loops = {}
         self.fx = facts
@@ -90,6 +112,10 @@ class Symx:
         self.no_inline = set(no_inline)
         # record `&local` arguments of opaque calls by the local's current value (expression checks)
         self.snapshot_refs = snapshot_refs
+        # small private functions are followed: a step moved into a private helper by a refactor is
+        # still that step.  KNOWN_PRIVATE lists the private functions that exist on the pinned tree and
+        # that rules treat as units of their own (they stay opaque unless a rule inlines them).
+        self.follow_private = FOLLOW_PRIVATE_DEFAULT if follow_private is None else follow_private
         self.uid = 0
         self.npaths = 0
         self._frame = 0
@@ -718,6 +744,10 @@ class Symx:
         do_inline = False
         if callee is not None and depth < self.max_depth and name not in self.no_inline:
             if name in self.inline or (t.res and '{closure#' in t.res) or self.inline_all_local:
+                do_inline = True
+            elif self.follow_private and name not in self.pure and name not in self.models \
+                    and str(callee.d.get('vis', '')).startswith('Restricted') and len(callee.blocks) <= 40 \
+                    and name not in KNOWN_PRIVATE and callee.kind in ('Fn', 'AssocFn') and name != fn.nq:
                 do_inline = True
         if do_inline:
             # bind trait-level SPEC parameter through: nothing to do, spec is global
